@@ -30,7 +30,7 @@ Step(r) ==
         /\ heard' = [l \in Links |-> -1] /\ born' = [l \in Links |-> 0] /\ regErr' = [l \in Links |-> FALSE]
         /\ everUp' = [l \in Links |-> FALSE] /\ lastTry' = [l \in Links |-> -1]
         /\ conn' = [l \in Links |-> FALSE] /\ tornSince' = [l \in Links |-> FALSE] /\ upSince' = [l \in Links |-> IF l <= r.n THEN 0 ELSE -1]
-        /\ quietSince' = 0 /\ act' = "Init"
+        /\ quietSince' = 0 /\ connAt' = TRUE /\ act' = "Init"
     ELSE IF r.ev = "Housekeeping" THEN Pass(r.t, timeout, cto, Torn(r), ConnOf(r))
     ELSE IF r.ev = "UplinkPkt" THEN Arrive(r.l, r.t, r.cls, r.len, ConnOf(r), CleanRejoin(r), r.stray)
     ELSE IF r.ev \in {"ClientPkt", "FlushTick"} /\ \E l \in 1..N(r) : r.marked[l]
